@@ -94,7 +94,7 @@ fn walk_vti(l: &mut L) -> LR<()> {
 }
 
 fn walk_element_value(l: &mut L, depth: usize) -> LR<()> {
-	if depth > 64 {
+	if depth > 2000 {
 		return Err("element value too deep".into());
 	}
 	match l.u8()? {
@@ -503,14 +503,8 @@ pub fn bytes_roundtrip(bytes: &[u8], obs: &mut Obs) -> PropResult {
 
 fn wellformed(case: &BytesCase, obs: &mut Obs) -> PropResult {
 	let mut model = class_from_stream(&case.stream, 4, 30);
-	if let Some(size) = crate::classfile::gen::add_big_attribute(&mut model, case.big) {
-		obs.label(if size > 65535 { "attribute_payload>65535" } else { "attribute_payload<=65535" });
-	}
-	if let Some(table) = crate::classfile::gen::inflate_table(&mut model, case.big) {
-		obs.label(format!("table_with_300_entries:{table}"));
-	}
-	if let Some(n) = crate::classfile::gen::add_long_string(&mut model, case.big) {
-		obs.label(if n > 32767 { "utf8_constant>32767_bytes" } else { "utf8_constant=32767_bytes" });
+	for l in crate::classfile::gen::apply_big(&mut model, case.big, usize::MAX) {
+		obs.label(l);
 	}
 	let mut ch = case.ch.clone();
 	if case.strip_wide {
@@ -859,14 +853,8 @@ fn truncate(s: &str) -> String {
 /// (c) well-formed raw values (obtained by reading encoder output, then written again) are cross-read
 fn cross_read(case: &BytesCase, obs: &mut Obs) -> PropResult {
 	let mut model = class_from_stream(&case.stream, 4, 30);
-	if let Some(size) = crate::classfile::gen::add_big_attribute(&mut model, case.big) {
-		obs.label(if size > 65535 { "attribute_payload>65535" } else { "attribute_payload<=65535" });
-	}
-	if let Some(table) = crate::classfile::gen::inflate_table(&mut model, case.big) {
-		obs.label(format!("table_with_300_entries:{table}"));
-	}
-	if let Some(n) = crate::classfile::gen::add_long_string(&mut model, case.big) {
-		obs.label(if n > 32767 { "utf8_constant>32767_bytes" } else { "utf8_constant=32767_bytes" });
+	for l in crate::classfile::gen::apply_big(&mut model, case.big, 256) {
+		obs.label(l);
 	}
 	let mut ch = case.ch.clone();
 	if case.strip_wide {
